@@ -16,7 +16,7 @@ CHECK = {'level': 'exploration',
            {'name': 'response', 'pkg': 'db', 'run': '^TestVerif_C08_Response$', 'timeout_q': 400, 'timeout_t': 2400},
            {'name': 'concurrent', 'pkg': 'db', 'race': True, 'run': '^TestVerif_C08_Concurrent$', 'timeout_q': 500, 'timeout_t': 2400}],
  'min_evals': 1000000,
- 'min_counters': {'perms.cases': 532952, 'perms.states_checked': 4207839, 'perms.states_with_skipped': 1000000,
+ 'min_counters': {'response.request_plus_requests_spanning_arrivals': 150, 'response.request_plus_late_arrivals_while_the_request_ran': 100, 'response.request_plus_resumes_from_the_last_row': 140, 'perms.cases': 532952, 'perms.states_checked': 4207839, 'perms.states_with_skipped': 1000000,
                   'perms.late_arrivals_forwarded': 400000, 'perms.duplicate_deliveries': 859745, 'perms.unused_ranges_arrived_late': 40000,
                   'perms.states_with_pending_range': 10000, 'perms.feeddoc_events': 37728,
                   'random.cases': 1250, 'random.late_arrivals_forwarded': 2532, 'random.states_with_pending_range': 915,
